@@ -158,6 +158,74 @@ theorem sub_congr (a a' b b' : Cap) (h1 : eq a a' = true) (h2 : eq b b' = true) 
   rw [eq_iff] at *
   intro f hf; simp [sub, h1 f hf, h2 f hf]
 
+/-! ### equality when an operand lacks fields (an object restored from a pickle of an older release)
+
+`eqMissing` (how `__eq__` reads a field the other object does not carry) is probed on the real method each run; the theorems below
+are re-checked against the probed value.  Full statement wanted by the property: `∀ x y, eqD x y = eqD y x`.  It is FALSE for the
+code as it is (`legacy_eq_symm_counterexample`: the loop runs over the left operand's own fields, so a non-zero field only the
+right operand carries is never looked at); what holds is symmetry whenever the fields only one side carries are 0 there
+(`legacy_eq_symm_partial`), and that the two directions TOGETHER are exactly equality of the values (`legacy_eq_both_iff_value`). -/
+
+/-- complete objects: the loop with `.get` is the ordinary `__eq__` -/
+theorem legacy_eq_full (a b : Cap) : eqD (PCap.full a) (PCap.full b) = eq a b := by
+  simp [eqD, PCap.full, PCap.read, eq]
+
+/-- what `x == y` decides: every field x carries equals y's, a field y lacks counting as 0 -/
+theorem legacy_eq_iff (x y : PCap) : eqD x y = true ↔ ∀ f ∈ fields, x.has f = true → x.val f = y.value f := by
+  simp only [eqD, List.all_eq_true, List.mem_filter, PCap.read, PCap.value, eqMissing]
+  constructor
+  · intro h f hf hx
+    have := h f ⟨hf, hx⟩
+    by_cases hy : y.has f = true <;> simp [hy, eqFail] at this ⊢ <;> exact this
+  · intro h f hf
+    have := h f hf.1 hf.2
+    by_cases hy : y.has f = true <;> simp [hy, eqFail] at this ⊢ <;> exact this
+
+/-- reflexive, whatever fields the object carries -/
+theorem legacy_eq_refl (x : PCap) : eqD x x = true := by
+  rw [legacy_eq_iff]; intro f _ hx; simp [PCap.value, hx]
+
+/-- a current object on the left (the case the comment in `__eq__` is about): equal iff the values are, missing = 0 -/
+theorem legacy_eq_full_left (a : Cap) (y : PCap) : eqD (PCap.full a) y = eq a y.value := by
+  rw [Bool.eq_iff_iff, legacy_eq_iff, eq_iff]; simp [PCap.full]
+
+/-- every field that only one of the two objects carries holds 0 there -/
+def zeroExtras (x y : PCap) : Bool :=
+  fields.all fun f => (!(x.has f && !y.has f) || x.val f == 0) && (!(y.has f && !x.has f) || y.val f == 0)
+
+theorem legacy_eq_symm_partial (x y : PCap) (h : zeroExtras x y = true) : eqD x y = eqD y x := by
+  rw [Bool.eq_iff_iff, legacy_eq_iff, legacy_eq_iff]
+  simp only [zeroExtras, List.all_eq_true] at h
+  constructor
+  · intro hxy f hf hy
+    have h1 := h f hf; have h2 := hxy f hf
+    by_cases hx : x.has f = true <;> simp [PCap.value, hx, hy] at h1 h2 ⊢ <;> omega
+  · intro hyx f hf hx
+    have h1 := h f hf; have h2 := hyx f hf
+    by_cases hy : y.has f = true <;> simp [PCap.value, hx, hy] at h1 h2 ⊢ <;> omega
+
+/-- the old object of the demo: everything but `mtu`, against a current object with the same values and `mtu = 0` -/
+def legacyOld : PCap := { has := fun f => f != "mtu", val := fun f => if f == "core" then 4 else 0 }
+def legacyNew (mtu : Int) : PCap := PCap.full fun f => if f == "core" then 4 else if f == "mtu" then mtu else 0
+
+example : zeroExtras legacyOld (legacyNew 0) = true := by decide
+example : eqD legacyOld (legacyNew 0) = true ∧ eqD (legacyNew 0) legacyOld = true := by decide
+
+/-- symmetry fails as soon as the right operand carries a non-zero field the left one lacks -/
+theorem legacy_eq_symm_counterexample : eqD legacyOld (legacyNew 1500) = true ∧ eqD (legacyNew 1500) legacyOld = false := by decide
+
+/-- both directions together are exactly equality of the values the objects stand for (missing = 0) -/
+theorem legacy_eq_both_iff_value (x y : PCap) : (eqD x y = true ∧ eqD y x = true) ↔ eq x.value y.value = true := by
+  rw [legacy_eq_iff, legacy_eq_iff, eq_iff]
+  constructor
+  · intro ⟨h1, h2⟩ f hf
+    have a := h1 f hf; have b := h2 f hf
+    by_cases hx : x.has f = true <;> by_cases hy : y.has f = true <;> simp [PCap.value, hx, hy] at a b ⊢ <;> omega
+  · intro h
+    constructor
+    · intro f hf hx; have a := h f hf; simp [PCap.value, hx] at a ⊢; exact a
+    · intro f hf hy; have a := h f hf; simp [PCap.value, hy] at a ⊢; exact a.symm
+
 /-! ### operands are never modified
 
 The class defines no in-place, reflected or comparison/truthiness hook (decided over the list of special methods read from the
